@@ -53,6 +53,9 @@ def suites(tier: str, seed: int) -> List[Suite]:
     # several generations in one process (edits, a larger max_servings and then a smaller one again): the link checker
     # runs on every generation - nothing of an earlier build may be linked from a later one
     hist.cases = SC.gen_links_history_cases(seed, 6 if tier == "quick" else 100)
+    # build, ADD recipes and links to them, rebuild into the SAME output directory: link checker + reachability on the
+    # result, which must also equal a from-scratch build of the new tree
+    hist.cases += SC.gen_add_sources_history_cases(seed, 6 if tier == "quick" else 100)
     return [site, hist]
 
 
